@@ -261,6 +261,8 @@ const KEYS: &[&[u8]] = &[
     b"\x1b[B", b"\x1b[C", b"\x1b[D", b"\x1b[D", b"\x1b[1;5C", b"\x1b[3~", b"\x00", b"\x1b", b"\x7f", b"\xc3", b"\xa9", b"\xff", b"help", b"he", b"--help",
     b"-h", b"--", b"cmd", b"\"\"", b"g", b"ge", b"get-", b"s", b"e", b"get-  \x1b[D\x1b[D\x09", "ст   \x1b[D\x1b[D\x09".as_bytes(), b"get \x1b[D\x09", "ö".as_bytes(), "ст".as_bytes(), "с".as_bytes(), b"\x09", b"\x09",
     "à".as_bytes(), "Р".as_bytes(), "х".as_bytes(), "\u{a0}he".as_bytes(), "\u{3000}".as_bytes(),
+    // navigation and submission keys once more: histories of several lines and recalls need them in a row
+    b"\x1b[A", b"\x1b[A", b"\x1b[B", b"\r", b"\n", b"\x08",
 ];
 
 #[derive(Clone, Debug)]
@@ -291,7 +293,8 @@ fn want(only: &str, p: &str) -> bool {
 }
 
 pub fn run(r: &mut Rng, iters: usize, only: &str) -> Option<Cex> {
-    for it in 0..iters.max(3000) {
+    // (sessions are cheap: four times the nominal iteration count)
+    for it in 0..iters.max(3000) * 4 {
         let c = if it % 2 == 0 { one_session::<RawCommand<'static>>(r, it, only) } else { one_session::<Derived>(r, it, only) };
         if c.is_some() {
             return c;
